@@ -76,6 +76,31 @@ def search(chk, n):
                              {"d": d, "N": N, "nenv": nenv, "perm": perm, "seed": chk.seed, "iteration": it})
 
 
+def sum_of_baths(chk, n):
+    """two baths with the same coupling operator = one bath with the summed spectral density"""
+    rng = chk.rng
+    sx, sz = oqupy.operators.sigma("x"), oqupy.operators.sigma("z")
+    for it in range(n):
+        eps = 1e-7
+        a1, a2 = rng.choice([0.05, 0.1, 0.3]), rng.choice([0.05, 0.2])
+        zeta, wc, T = rng.choice([1, 3]), rng.choice([1.0, 3.0]), rng.choice([0.0, 0.4])
+        op = rng.choice([0.5 * sz, 0.5 * sx + 0.3 * sz])
+        dkmax = rng.choice([None, 2])
+        par = oqupy.TempoParameters(dt=0.1, epsrel=eps, dkmax=dkmax)
+        N = rng.randint(3, 5)
+        mk = lambda a: quiet(oqupy.pt_tempo_compute, oqupy.Bath(op, oqupy.PowerLawSD(alpha=a, zeta=zeta, cutoff=wc, cutoff_type="exponential", temperature=T)),
+                             0.0, N * 0.1, parameters=par, progress_type="silent")
+        sysm = oqupy.System(0.4 * sx + 0.2 * sz)
+        rho0 = oqupy.operators.spin_dm("y+")
+        two = np.array(quiet(oqupy.compute_dynamics, sysm, initial_state=rho0, process_tensor=[mk(a1), mk(a2)], progress_type="silent").states)
+        one = np.array(quiet(oqupy.compute_dynamics, sysm, initial_state=rho0, process_tensor=mk(a1 + a2), progress_type="silent").states)
+        chk.search_cases += 1
+        chk.count("sum_of_baths")
+        if np.abs(two - one).max() > 2e3 * eps:
+            chk.fail("sum-of-baths", f"two baths (alpha {a1}, {a2}) with the same coupling operator differ from one bath with the summed spectral "
+                     f"density by {np.abs(two - one).max():.2e}", {"alpha": [a1, a2], "zeta": zeta, "T": T, "dkmax": dkmax, "N": N})
+
+
 def run(chk):
     rng = chk.rng
     thorough = chk.tier == "thorough"
@@ -126,10 +151,11 @@ def run(chk):
             chk.disagree("compute_dynamics", {"meta": m, "impl": exp[:60], "model": (got or [])[:60]})
 
     search(chk, 150 if (thorough or chk.disagreements or chk.broken) else 40)
+    sum_of_baths(chk, 8 if (thorough or chk.disagreements or chk.broken) else 2)
     return chk.finish(
         level="proof",
         trusted=["model: Model/Dyn.v, Model/PT.v; injected propagators; integer tensors (exact float contraction)",
                  "search oracle: independent dense NumPy joint evolution (harness/ref.py), 1e-9 relative"],
         rule="hand-built Gaussian-integer SimpleProcessTensors (rank 3 / rank 4, with / without transforms, bond dims 1-3, trivial PTs), "
              "0-3 environments, 1-4 steps, record_all on/off; distinct = (d, N, PT kinds, bond profile)",
-        assumptions=["'two baths = one bath with summed spectral density' is explored on PT-TEMPO objects in the thorough tier of C01/C02 machinery, not proved here"])
+        assumptions=["'two baths = one bath with the summed spectral density' rests on exponent_additive (Proofs/ShapesSpec.v) and is explored on PT-TEMPO objects here"])
